@@ -465,6 +465,19 @@ def _base_generators(ctx: Ctx) -> None:
                 ok = False
             tdef = _assigns_to(f, T)
             ok = ok and len(tdef) == 1 and unparse(tdef[0].value).replace(' ', '') in ('number_of_draws*sample_size', 'sample_size*number_of_draws')
+        elif isinstance(g.target, ast.Tuple) and len(g.target.elts) == 2 and all(isinstance(x, ast.Name) for x in g.target.elts) and unparse(g.iter) == 'enumerate(uniform_numbers)' and not g.ifs:
+            # the same points, the uniform numbers taken in turn: their count is fixed by `uniform_numbers.shape = (n,)`
+            i, u = (x.id for x in g.target.elts)
+            shp = [a for a in _assigns_to(f, 'uniform_numbers.shape') if isinstance(a.value, ast.Tuple) and len(a.value.elts) == 1 and seq(a) < seq(c)]
+            if len(shp) == 1:
+                T = unparse(shp[0].value.elts[0])
+                ts = ToSympy()
+                try:
+                    ok = equal(ts(c.elt), (ts.sym(i) + ts.sym(u)) / ts.sym(T))
+                except AnalysisError:
+                    ok = False
+                tdef = _assigns_to(f, T)
+                ok = ok and len(tdef) == 1 and unparse(tdef[0].value).replace(' ', '') in ('number_of_draws*sample_size', 'sample_size*number_of_draws')
     ctx.add('C11.R2', 'draws.get_latin_hypercube_draws:strata', ok, f,
             'point i is (i + u_i)/n for i in range(n), n = sample_size*number_of_draws' if ok else f'MLHS stratum formula not recognised: {det}', det)
 
